@@ -69,14 +69,14 @@ def Node.replStep (n : Node) (m : Meta) (line : Bytes) : Node × Meta × LoopOut
         match req with
         | .createDb _ name _ =>
           match dbId name with
-          | some d => (some (m.writeOp { t := opId, k := 1, d := d, o := 2 }), true)
+          | some d => (some (m.writeOp { t := opId, k := 18446744073709551615, d := d, o := 2 }), true)
           | none => (none, false)
         | .replicateSnapshot _ names =>
           names.foldl (fun (acc : Option Meta × Bool) name =>
             match acc.2, dbId name with
-            | true, some d => (some ((acc.1.getD m).writeOp { t := opId, k := 2, d := d, o := 3 }), true)
+            | true, some d => (some ((acc.1.getD m).writeOp { t := opId, k := 18446744073709551614, d := d, o := 3 }), true)
             | true, none => (acc.1, false)
-            | false, some d => (some ((acc.1.getD m).writeOp { t := opId, k := 2, d := d, o := 3 }), false)
+            | false, some d => (some ((acc.1.getD m).writeOp { t := opId, k := 18446744073709551614, d := d, o := 3 }), false)
             | false, none => (acc.1, false)) (none, true)
         | .replicateSet db key _ _ =>
           let (m1, kid) := m.keyId key
@@ -186,8 +186,8 @@ def Node.replMOps (n : Node) (line : Bytes) : List MOp :=
     | .ok req =>
       let dbId (name : Bytes) : Option Nat := (n.db? name).map (·.id)
       match req with
-      | .createDb _ name _ => match dbId name with | some d => [.log { t := opId, k := 1, d := d, o := 2 }] | none => []
-      | .replicateSnapshot _ names => names.filterMap fun name => (dbId name).map fun d => .log { t := opId, k := 2, d := d, o := 3 }
+      | .createDb _ name _ => match dbId name with | some d => [.log { t := opId, k := 18446744073709551615, d := d, o := 2 }] | none => []
+      | .replicateSnapshot _ names => names.filterMap fun name => (dbId name).map fun d => .log { t := opId, k := 18446744073709551614, d := d, o := 3 }
       | .replicateSet db key _ _ => match dbId db with | some d => [.write key opId d 0] | none => [.register key]
       | .replicateIncrement db key _ => match dbId db with | some d => [.write key opId d 0] | none => [.register key]
       | .replicateRemove db key => match dbId db with | some d => [.write key opId d 1] | none => [.register key]
